@@ -161,6 +161,62 @@ def delete_implies_depth(ctx, forest):
                        "with_delete": fw.hexs(r1[1]), "twin_with_depth": fw.hexs(r2[1])})
 
 
+def sorted_names(ctx, forest):
+    """-sorted: siblings in byte-wise name order (C03_sorted_order / C03_byte_order on SortOrder.sort_names).  Directories of names chosen
+    for the traps of other orders (prefixes, '-' '.' '/'-neighbours, upper and lower case, digits of different length, multi-byte UTF-8),
+    listed by the real find in pre-order and under -depth, against the model's order; the Python order the generated trees above are
+    unfolded in is checked against the model on the same names."""
+    rng = ctx.rng
+    pool = [b"a", b"A", b"a.b", b"a-", b"a-b", b"ab", b"aB", b"a b", b"a0", b"a10", b"a9", b"B", b"b", b"_", b"~", b"-a", b".a", b"..a", b"0",
+            b"10", b"9", b"\xc3\xa9", b"e\xcc\x81", b"\xe2\x82\xac", b"z", b"Z", b"aa", b"a\n", b"a\t", b"#", b"+", b",", b"a,", b"a+", b"a#",
+            b"\xf0\x9f\x98\x80", b"\xc2\xa0", b"a\xc3\xa9", b"{}", b"[", b"]", b"*", b"?", b"'", b'"', b"\\", b"a\\"]
+    bad = []
+    nd = 40 if ctx.thorough else 8
+    for k in range(nd):
+        names = set(rng.sample(pool, rng.randint(2, 14)))
+        for _ in range(rng.randint(0, 6)):              # random names over a small alphabet: many common prefixes
+            names.add(bytes(rng.choice(b"aAb-.0~") for _ in range(rng.randint(1, 4))))
+        names.discard(b"."); names.discard(b"..")
+        names = sorted(names, key=lambda n: rng.random())       # creation order is not name order
+        d = os.path.join(forest.dir, b"so%d" % k)
+        os.makedirs(d)
+        sub = rng.choice(names)
+        for n in names:
+            if n == sub:
+                os.makedirs(os.path.join(d, n))
+                for m in names[:5]:
+                    open(os.path.join(d, n, m), "wb").close()
+            else:
+                open(os.path.join(d, n), "wb").close()
+        model = fw.run_lines(fw.FUVM, ["paths sort %s" % xc.hexlist(names), "paths sort %s" % xc.hexlist(names[:5])], shards=1)
+        order = [fw.unhex(x) for x in model[0].split(",")]
+        inner = [fw.unhex(x) for x in model[1].split(",")]
+        if order != sorted(names) or inner != sorted(names[:5]):
+            raise RuntimeError("the byte-wise order the check unfolds trees in differs from SortOrder.sort_names on %r" % names)
+        root = b"so%d" % k
+        pre, post = [root], []
+        for n in order:
+            pre.append(root + b"/" + n)
+            if n == sub:
+                pre += [root + b"/" + n + b"/" + m for m in inner]
+                post += [root + b"/" + n + b"/" + m for m in inner]
+            post.append(root + b"/" + n)
+        post.append(root)
+        for args, want in ((["so%d" % k, "-sorted", "-print0"], pre), (["so%d" % k, "-sorted", "-depth", "-print0"], post)):
+            line = "find - %s %s" % (fw.hexs(forest.dir), xc.hexlist([a.encode() for a in args]))
+            code, out, err = wc.decode_find(xc.run_impl([line])[0])
+            got = out.split(b"\0")[:-1] if isinstance(out, bytes) else []
+            ctx.count(("sorted-names", k, tuple(args), tuple(names)), len(names) >= 3, "sorted-names")
+            if code != 0 or got != want:
+                bad.append((args, names, code, got, want))
+    for args, names, code, got, want in bad[:3]:
+        ctx.violation("find %s over the names %r: exit %s, visited %r; in byte-wise name order (SortOrder.sort_names): %r"
+                      % (" ".join(args), names, code, got, want),
+                      {"property": "C03", "kind": "sorted-names", "find_args": args, "names": [fw.hexs(n) for n in names], "exit": str(code),
+                       "visited": [fw.hexs(g) for g in got], "expected": [fw.hexs(w) for w in want],
+                       "explain": "C03_sorted_order: with -sorted the children of a directory are visited in the order of SortOrder.sort_names"})
+
+
 def run(ctx):
     forest = wc.Forest("c03-")
     try:
@@ -173,6 +229,7 @@ def run(ctx):
         delete_implies_depth(ctx, forest)
         prune_across_devices(ctx, forest)
         depth_before_next_entry(ctx, forest)
+        sorted_names(ctx, forest)
     finally:
         forest.close()
 
